@@ -89,20 +89,48 @@ theorem count_of_edge (e c : Rat) (k : Nat) (hc : c ≠ 0) (h : e = (k : Rat) * 
   have : e / c = (k : Rat) := by rw [h]; field_simp
   rw [this]; exact roundHalfEven_nat k
 
+theorem metaOf_of_ok (f : Fld) (h : metaOk f = true) : ctorMeta f = .ok (metaOf f) := by
+  unfold metaOk at h
+  unfold metaOf
+  cases hc : ctorMeta f with
+  | error e => rw [hc] at h; cases h
+  | ok p => rfl
+
+theorem metaOk_of_eq (f : Fld) (p : Option (List String) × List (String × String))
+    (h : ctorMeta f = .ok p) : metaOk f = true ∧ metaOf f = p := by
+  unfold metaOk metaOf; rw [h]; exact ⟨rfl, rfl⟩
+
 theorem mkFld_inv (m : Mesh) (f : Fld) (d : NDA (List Rat)) (v : NDA Bool) (g : Fld)
     (h : mkFld m f d v = .ok g) :
     g.mesh = m ∧ g.data = d ∧ g.valid = v ∧ d.shape = m.n ∧ v.shape = m.n ∧ g.nvdim = f.nvdim ∧
-    g.vdims = f.vdims ∧ g.vmap = f.vmap ∧ g.unit = f.unit := by
+    g.unit = f.unit ∧ ctorMeta f = .ok (g.vdims, g.vmap) := by
   unfold mkFld at h
   split at h
   · cases h
   · injection h with h
     subst h
     rename_i hs
-    have : d.shape = m.n ∧ v.shape = m.n := by
-      constructor
+    have : d.shape = m.n ∧ v.shape = m.n ∧ metaOk f = true := by
+      refine ⟨?_, ?_, ?_⟩
       · by_contra hc; exact hs (Or.inl hc)
-      · by_contra hc; exact hs (Or.inr hc)
-    exact ⟨rfl, rfl, rfl, this.1, this.2, rfl, rfl, rfl, rfl⟩
+      · by_contra hc; exact hs (Or.inr (Or.inl hc))
+      · cases hm : metaOk f with
+        | true => rfl
+        | false => exact absurd (Or.inr (Or.inr hm)) hs
+    exact ⟨rfl, rfl, rfl, this.1, this.2.1, rfl, rfl, metaOf_of_ok f this.2.2⟩
+
+/-- the constructor call succeeds when the arrays have the shape of the mesh and the label /
+mapping setters accept -/
+theorem mkFld_ok (m : Mesh) (f : Fld) (d : NDA (List Rat)) (v : NDA Bool)
+    (h1 : d.shape = m.n) (h2 : v.shape = m.n) (h3 : metaOk f = true) :
+    ∃ g, mkFld m f d v = .ok g := by
+  unfold mkFld
+  rw [if_neg (by
+    intro hcon
+    rcases hcon with hcon | hcon | hcon
+    · exact hcon h1
+    · exact hcon h2
+    · rw [h3] at hcon; cases hcon)]
+  exact ⟨_, rfl⟩
 
 end DFV.C07
